@@ -1,13 +1,16 @@
 #!/bin/sh
 # usage: tools/try_seeded.sh <patch.diff> <property id> [extra check args...]
-# Applies a seeded change to /repo, runs the property's check, and undoes the change.
-# Never leaves /repo modified. Exit code = exit code of the check.
+# Applies a seeded change to the repository, runs the property's check, and undoes the change.
+# Never leaves the repository modified. Exit code = exit code of the check.
+# REPO_DIR (default /repo) and VERIF_HOME (default /verif) allow an isolated copy: with REPO_DIR set to
+# a scratch worktree the check is built against it (VERIF_REPO).
 patch=$(readlink -f "$1"); prop="$2"; shift 2
-cd /repo || exit 2
-if [ -n "$(git status --porcelain)" ]; then echo "/repo is not clean" >&2; exit 2; fi
+repo=${REPO_DIR:-/repo}; home=${VERIF_HOME:-/verif}
+cd "$repo" || exit 2
+if [ -n "$(git status --porcelain)" ]; then echo "$repo is not clean" >&2; exit 2; fi
 git apply "$patch" || { echo "patch does not apply" >&2; exit 2; }
-cd /verif
-./check "$prop" "$@"
+cd "$home"
+if [ "$repo" != "/repo" ]; then VERIF_REPO="$repo" ./check "$prop" "$@"; else ./check "$prop" "$@"; fi
 rc=$?
-git -C /repo checkout -- . && git -C /repo clean -fdq
+git -C "$repo" checkout -- . && git -C "$repo" clean -fdq
 exit $rc
